@@ -16,7 +16,7 @@ STUBS = []
 ASSUMES = ["allele tuples are sorted ascending (the documented precondition)",
            "symbolic alleles/indices are concretised path by path by the solver (table lookups are a C boundary); _comb is symbolic in n for k <= 2",
            "int64 side condition: every intermediate of _comb is checked against 2^63 by a solver query on the path"]
-BOUNDS = {"quick": "ploidy 1..4 x alleles <= 8 (all genotypes/indices); beyond the table: ploidy 2 x alleles 99..130; _comb symbolic n in [0, 2^31] for k <= 2; k in 3..5 with n in [97,140] solver-enumerated",
+BOUNDS = {"quick": "comb / comb_with_replacement on the grid n <= 110, k <= 22 (table, its borders and beyond); ploidy 12-13 x <= 3 alleles; ploidy 1..4 x alleles <= 8 (all genotypes/indices); beyond the table: ploidy 2 x alleles 99..130; _comb symbolic n in [0, 2^31] for k <= 2; k in 3..5 with n in [97,140] solver-enumerated",
           "thorough": "ploidy 1..6 x alleles <= 12; beyond the table ploidy 2..3 x alleles 99..140; k in 3..8 with n in [92,160], k in 12..16 with n in [k,70]"}
 OUTSIDE = "mchap.combinatorics.count_unique_genotypes (scipy.special.comb float code: not encodable); ploidy/alleles beyond the bound"
 TASKS_PER_CHILD = 8
@@ -43,6 +43,12 @@ def configs(tier):
         for k in (12, 13, 14, 16):
             out.append(dict(group="comb-enum", k=k, lo=k, hi=70))
     out.append(dict(group="posterior-array"))
+    # the whole table region and its borders, both argument orders (ploidy >= 12 lives here)
+    for k0 in range(0, 21 if quick else 41, 3):
+        out.append(dict(group="grid", klo=k0, khi=k0 + 2, nmax=110 if quick else 130))
+    for P in ((12, 13) if quick else (12, 13, 16, 20)):
+        out.append(dict(group="index", P=P, top=2))
+        out.append(dict(group="index", P=P, top=1))
     return out
 
 
@@ -207,6 +213,38 @@ class _G:
             E.cfg.check_int64 = False
 
     @staticmethod
+    def grid(c, col, ju):
+        """comb / comb_with_replacement on a solver-enumerated grid around and beyond the 100 x 12 tables"""
+        site = "mchap.jitutils.comb_with_replacement"
+
+        def body(ctx):
+            n = int(E.SymInt(E.fresh_int(ctx, "n", 0, c["nmax"])))
+            k = int(E.SymInt(E.fresh_int(ctx, "k", c["klo"], c["khi"])))
+            return n, k, int(ju.comb(n, k)), int(ju.comb_with_replacement(n, k))
+
+        first = True
+        for pr in E.explore(body, stats=col.stats):
+            if pr.exc is not None:
+                col.fail(site, "exception", witness=dict(exc=repr(pr.exc)), desc="raised %r" % (pr.exc,))
+                continue
+            col.path()
+            if first:
+                col.reachable(pr.ctx)
+                first = False
+            n, k, a, b = pr.value
+            wa = math.comb(n, k)
+            wb = math.comb(n + k - 1, k) if (n + k) > 0 else None  # (0,0): the code's own convention, not claimed
+            bad = []
+            if wa < 2 ** 53 and a != wa:
+                bad.append("comb(%d,%d)=%d expected %d" % (n, k, a, wa))
+            if wb is not None and wb < 2 ** 53 and b != wb:
+                bad.append("comb_with_replacement(%d,%d)=%d expected %d" % (n, k, b, wb))
+            if bad:
+                col.fail(site, "coefficient-grid", witness=dict(n=n, k=k, problems=bad), shape=dict(in_table=bool(n < 100 and k < 12)), desc="; ".join(bad))
+            else:
+                col.ok("comb(n,k) and comb_with_replacement(n,k) exact on the grid n<=%d, k in %d..%d" % (c["nmax"], c["klo"], c["khi"]))
+
+    @staticmethod
     def posterior_array(c, col, ju):
         cu = E.load("mchap.calling.utils")
         site = "mchap.calling.utils.posterior_as_array"
@@ -266,6 +304,12 @@ def replay(v):
     if k == "index-to-genotype":
         got = [int(x) for x in rj.index_as_genotype_alleles(w["index"], v["config"]["P"])]
         return got != list(w["want"]), "index %d -> %s want %s" % (w["index"], got, w["want"])
+    if k == "coefficient-grid":
+        n, kk = w["n"], w["k"]
+        a, b = int(rj.comb(n, kk)), int(rj.comb_with_replacement(n, kk))
+        wa = math.comb(n, kk)
+        wb = math.comb(n + kk - 1, kk)
+        return a != wa or b != wb, "comb(%d,%d)=%d (exact %d); comb_with_replacement=%d (exact %d)" % (n, kk, a, wa, b, wb)
     if k == "comb-exact":
         if "n" in w:
             n = w["n"]
